@@ -11,7 +11,9 @@ import FGVerif.Model.C16
       impl     `((<its> …) <g after the call>)` or `(raised <Kind>)`,
                its := `(((id sym) …) ((u v left right) …))` nodes sorted, edges u ≤ v sorted,
                the list sorted by its rendering
-    reply `(ok ((<its> …) <g>) spec_model spec_impl contract_ok clause #monos #matches)`
+    reply `(ok ((<its> …) <g>) spec_model spec_impl contract_ok clause #monos #matches inputsWF)`
+      inputsWF  `inputsWFB g rc`: the hypotheses of `C16.specCheck_sound` / `C16.applyRule_spec` hold for this request
+      a result node without a symbol (`(id _)`) is not a decode error: the clause `nodes` fails
 
   `(C16 rcgraph <L> <C> <R> [<impl>])`  reply `(ok <its>|(raised K) 1 spec_impl)`
 -/
@@ -62,14 +64,20 @@ def ofItsEdges (es : List (E (Int × Int))) : SExp :=
 def ofIts (g : ITSGraph) : SExp :=
   .list [ofItsNodes (g.nodes.map fun n => (n.1, some n.2)), ofItsEdges g.edges]
 
-def asIts : SExp → Option ITSGraph
+/-- a result as it came from the implementation; a node may lack its symbol (`(id _)`) -/
+def asItsRaw : SExp → Option (List (Int × Option String) × List (E (Int × Int)))
   | .list [ns, es] => do
-      let ns ← asList (asPair asInt asStr) ns
+      let ns ← asList (asPair asInt (asOpt asStr)) ns
       let es ← asList (fun x => match x with
         | .list [u, v, a, b] => do pure ((← asInt u), (← asInt v), ((← asInt a), (← asInt b)))
         | _ => none) es
-      pure ⟨ns, es⟩
+      pure (ns, es)
   | _ => none
+
+/-- every node carries a symbol -/
+def rawToIts (r : List (Int × Option String) × List (E (Int × Int))) : Option ITSGraph := do
+  let ns ← r.1.mapM fun n => n.2.map fun s => (n.1, s)
+  pure ⟨ns, r.2⟩
 
 /-- the wire form of a result lists its nodes sorted by id; node order is not observable, so a
     result with `g`'s node set is given `g`'s node order back before the specification reads it -/
@@ -107,16 +115,18 @@ def handleApply (gx rcx msx hsx nx ux cx : SExp) (rest : List SExp) : Option SEx
         if isRaised impl then pure (ofBool false, "raised")
         else match impl with
           | .list [rs, gAfter] => do
-              let rs := (← asList asIts rs).map (restoreOrder g)
+              let raw ← asList asItsRaw rs
               if !(gAfter == gx) then pure (ofBool false, "input_untouched")
-              else
-                match specClause wl g rc n unique conn rs with
-                | some c => pure (ofBool false, c)
-                | none => pure (ofBool true, "-")
+              else match raw.mapM rawToIts with
+                | none => pure (ofBool false, "nodes")   -- a result node without a symbol: not `g`'s nodes
+                | some rs =>
+                  match specClause wl g rc n unique conn (rs.map (restoreOrder g)) with
+                  | some c => pure (ofBool false, c)
+                  | none => pure (ofBool true, "-")
           | _ => none
     | _ => pure (none', "-")
   pure (.list [.atom "ok", enc model gx, ofBool clauseModel.isNone, specImpl, ofBool contract,
-               .atom clause, ofNat (monos g rule.l).length, ofNat ms.length])
+               .atom clause, ofNat (monos g rule.l).length, ofNat ms.length, ofBool (inputsWFB g rc)])
 
 /-! ### `to_rc_graph` -/
 
